@@ -64,7 +64,7 @@ DevLong(ret) ==
 
 Known(v, ret) ==
     IF ExpLenClass # "" /\ cfg.fault = "none" /\ (DevShort(ret) \/ DevLong(ret)) THEN "known:C07-" \o ExpLenClass
-    ELSE IF ExpLenClass # "" /\ cfg.fault \in {"stall", "eof", "ioerr", "cancel", "oversize"} /\ DevShort(ret) THEN "known:C08-" \o ExpLenClass
+    ELSE IF ExpLenClass # "" /\ cfg.fault \in {"stall", "eof", "ioerr", "cancel", "ctxdeadline", "oversize"} /\ DevShort(ret) THEN "known:C08-" \o ExpLenClass
     ELSE v
 
 ----------------------------------------------------------------------------
